@@ -33,10 +33,16 @@ git -C /repo worktree remove --force "$wt2"
 nviol=$(grep -c '^VIOLATION' "$dst/check_output.txt")
 echo "seed $id: check $prop exit=$rc violations=$nviol"
 grep -m3 '^  violation' "$dst/check_output.txt" | cut -c1-300
-cat > "$dst/meta.json" <<EOM
-{"seed": "$id", "property": "$prop", "package_dir": "$pkgdir",
- "confirmed": {"suite_passes_with_patch": "$res_suite", "demo_with_patch": "$res_demo_with", "demo_without_patch": "$res_demo_without"},
- "check": {"cmd": "./check $prop -noevidence $*", "exit": $rc, "violation_lines": $nviol},
- "needs": "see README.md",
- "ran": "tools/seed_eval.sh $src $id $prop $*"}
-EOM
+python3 - "$id" "$prop" "$pkgdir" "$res_suite" "$res_demo_with" "$res_demo_without" "$rc" "$nviol" "$src" "$*" <<'EOPY'
+import json, sys
+id_, prop, pkgdir, suite, dw, dwo, rc, nviol, src, extra = sys.argv[1:11]
+notes = json.load(open('/verif/tools/seed_notes.json')).get(id_, {})
+meta = {"seed": id_, "property": prop, "package_dir": pkgdir,
+  "what": notes.get("what", "see README.md"),
+  "needs": notes.get("needs", "see README.md"),
+  "confirmed": {"suite_passes_with_patch": suite, "demo_with_patch": dw, "demo_without_patch": dwo,
+     "how": "scratch worktree of /repo HEAD: git apply patch.diff; go build ./... && go test -vet=off -count=1 ./... ; demo_test.go copied next to the package as zz_seed_demo_test.go and run with -run ^TestSeedDemo$ with and without the patch"},
+  "check": {"cmd": "./check %s -noevidence %s (against a scratch worktree with the patch applied, VERIF_REPO; same as git -C /repo apply patch.diff; ./check; git -C /repo checkout -- .)" % (prop, extra), "exit": int(rc), "violation_lines": int(nviol)},
+  "ran": "tools/seed_eval.sh %s %s %s %s" % (src, id_, prop, extra)}
+json.dump(meta, open('/verif/seeded/%s/meta.json' % id_, 'w'), indent=1)
+EOPY
